@@ -52,6 +52,7 @@ def c01(res, wd):
     # long runs that wrap the 128-slot input ring, the cell ring and the time-sync window
     nl, fl = sizes(res.tier, (2, 2000), (6, 12000))
     ps += plans.batch(res.seed * 1000 + 2, nl, fl, p_pause=0.0)
+    ps += plans.batch(res.seed * 1000 + 9, sizes(res.tier, 6, 40), 300, fam=plans.tight)
     engines.obs_runs(res, "C01", ps, {"C01"}, wd, "c01", nontrivial=_rollback_nontrivial)
     res.rule = ("(1) exhaustive TLC exploration of System.tla (2 peers, inputs {0,1}, every tick interleaving, "
                 "loss/arbitrary delay per link) with the monitor as invariant; (2) TLC-simulated schedules replayed "
@@ -76,6 +77,8 @@ def c02(res, wd):
     ps += plans.batch(res.seed * 1000 + 4, n, frames, window=random.Random(res.seed).choice([1, 2, 3]),
                       loss=0.3, lat_lo=40, lat_hi=120)
     ps += plans.batch(res.seed * 1000 + 5, max(2, n // 2), frames, spectators=1, npeers=2)
+    # stalls immediately followed by shallow rollbacks (latency ~ window, every input mispredicted)
+    ps += plans.batch(res.seed * 1000 + 10, sizes(res.tier, 10, 60), 300, fam=plans.tight)
     engines.obs_runs(res, "C02", ps, {"C02"}, wd, "c02",
                      nontrivial=lambda st, pl: st["loads"] >= 1 and (st["stalls"] >= 1 or st["maxDepth"] >= 2))
     res.rule = ("request-list walker (Monitor.tla ReqStep/TickP2P/TickSpec) over every advance_frame call of: "
